@@ -68,6 +68,38 @@ def generate(rng, tier):
         g["encoder-reuse"].append("EREUSE " + " ".join(a) + " | " + " ".join(b))
         rc = R.rect(rng)
         g["renderer-reuse"].append("REUSE %d %d %d %d " % tuple(rc) + " ".join(render_a(rng)) + " | " + " ".join(render_b(rng)))
+    # SetRasterizer again between two graphics: same size at another origin, or another size
+    g["renderer-retarget"] = []
+    # the second graphic has the same palette / a viewBox of the same size as the first
+    g["renderer-same-metadata"] = []
+    # two zero-value Encoders one after the other: what the first did (Bytes, getters, a later Reset with other metadata) does not reach the second
+    g["encoder-sharing"] = []
+    for _ in range(n // 6):
+        rc = R.rect(rng)
+        k = rng.below(3)
+        rc2 = [rc[0] + rng.range(1, 60), rc[1] + rng.range(-30, 30), rc[2], rc[3]] if k == 0 else \
+              [rc[0], rc[1] + rng.range(1, 90), rc[2], rc[3]] if k == 1 else R.rect(rng)
+        g["renderer-retarget"].append("REUSE %d %d %d %d " % tuple(rc) + " ".join(render_a(rng)) + " | SR %d %d %d %d " % tuple(rc2) + " ".join(render_b(rng)))
+        # same palette, registers dirtied by A, B reads the initial registers
+        pal = ",".join("%d:%s" % (i, G.rpremul(rng)) for i in sorted(set([0, 1, 63, rng.below(64)])))
+        vb = R.viewbox(rng)
+        f = [C.bits_f32(int(x, 16)) for x in vb]
+        dx, dy = rng.range(-40, 40) / 2.0, rng.range(-40, 40) / 2.0
+        vb2 = rng.choice([vb, [C.fh(f[0] + dx), C.fh(f[1] + dy), C.fh(f[2] + dx), C.fh(f[3] + dy)], R.viewbox(rng)])
+        a = ["R"] + vb + [pal]
+        for i in (0, 1, 63):
+            a += ["CS", str(i), "CR", "0", "0", "#" + G.rpremul(rng)]
+        a += R.path(rng, n=2)
+        b = ["R"] + vb2 + [pal]
+        for adj in (0, 1):
+            b += R.path(rng, n=2, adj=adj)
+        g["renderer-same-metadata"].append("REUSE %d %d %d %d " % tuple(rc) + " ".join(a) + " | " + " ".join(b))
+        # encoder sharing
+        first = rng.choice([["B"], ["rc", "B"], ["rl"], ["CS", "3", "B"], []])
+        if rng.below(3):
+            first += ["R"] + G.rviewbox(rng) + [G.rpalette(rng, default_ok=False)] + (["B"] if rng.below(2) else [])
+        second = G.program(rng, reset=(rng.below(3) == 0)) + ["B"]
+        g["encoder-sharing"].append("ESHARE " + " ".join(first) + " | " + " ".join(second))
     return g
 
 
@@ -82,6 +114,10 @@ def nontrivial(case, out):
 def always_check(case, io):
     if io.startswith(("PANIC", "CRASH", "MISSING")):
         return True, io[:200]
+    if case.startswith("ESHARE"):
+        if io.endswith("A-CHANGED"):
+            return True, "an Encoder's bytes changed because another Encoder was used"
+        return False, ""
     a, _, b = io.partition(" || ")
     if a != b:
         return True, "the reused object's output differs from a fresh object's"
